@@ -92,7 +92,52 @@ ADDITIONAL GUIDANCE FOR ROUND 5: four rounds of seeding have covered the central
     return base.replace("\n\nALREADY TRIED", extra + "\n\nALREADY TRIED", 1)
 
 
+def prompt_hunt(pid: str) -> str:
+    """Defect hunt: an independent sub-agent looks for inputs / histories on which the CURRENT tree breaks the property.
+    It gets the property text, a scratch worktree, and one line per defect that is already known (so that effort goes
+    elsewhere); nothing else from /verif."""
+    p = props[pid]
+    files = ", ".join(p["anchors"]["files"])
+    try:
+        kf = json.load(open("/verif/known_findings.json", encoding="utf-8"))
+        known = ["  - " + (k.get("what") or k.get("construct") or "")[:200] + " :: " + (k.get("input") or "")[:160] for k in kf.get("known", [])]
+        known += ["  - (already repaired) " + f[:260] for f in kf.get("fixed", [])]
+    except (OSError, ValueError):
+        known = []
+    return f"""You are reviewing the open-source Python library `cisco_acl` (vladimirs-git/cisco-acl, pure Python; parses, converts and analyses Cisco ACL text) for GENUINE DEFECTS against one stated property.
+
+You have your own scratch git worktree of the repository at /tmp/hunt-{pid} (work ONLY inside that directory; never touch /repo or /verif, never read anything under /verif). The library source is in /tmp/hunt-{pid}/cisco_acl, its tests in /tmp/hunt-{pid}/tests, its documentation in README.rst and docs/.
+
+THE PROPERTY (a user relies on it for EVERY input, object history and platform, not only for what the tests sample):
+
+  Title: {p['title']}
+  Statement: {p['statement']}
+  Quantified over: {p['quantifier']['text']}
+
+It is implemented across: {files}.
+
+TASK: find concrete inputs, object histories (sequences of public operations) or configurations on which the library AS IT IS breaks this property. Read the code critically (every clause of the statement, every platform ios/nxos/asa where it is supported, standard and extended ACLs, numbered and unnumbered entries, grouped and flat ACLs, nested address groups, objects built from text / from `items=` / from `data()` dictionaries, boundary numbers, empty containers, repeated or equal members, names with unusual but legal characters), form hypotheses, and TEST each one by running small scripts against the worktree:
+      cd /tmp/hunt-{pid} && PYTHONPATH=/tmp/hunt-{pid} /venv/bin/python your_script.py
+A finding counts only if (a) it uses the PUBLIC API the way the README/docs allow, (b) the observed behaviour contradicts a clause of the statement above (quote the clause), and (c) it is not merely a documented error (ValueError/TypeError for input the docs call invalid is fine behaviour unless the statement says otherwise). Differences that the statement does not speak about are NOT findings. Be sceptical of your own findings: re-read the statement before you keep one.
+
+ALREADY KNOWN (do not report these again or close variants of them):
+{chr(10).join(known)}
+
+Deliver, inside /tmp/hunt-{pid}/HUNT/ (create the directory), for each finding k (at most 5; fewer, well-established findings are better than many doubtful ones; ZERO findings is an acceptable, honest result - then say what you tried):
+  - finding{{k}}.py : a small standalone program that exits 1 and prints FAIL with an explanation on the current code (and would exit 0 / print PASS if the property held),
+  - finding{{k}}.md : the clause that is violated, the minimal input/history, what happens, what should happen, where in the code the cause is (file, function, line), and how sure you are,
+  - if you can: fix{{k}}.diff : a MINIMAL patch a maintainer would accept (corrects the behaviour, does not remove it or special-case your input) with which finding{{k}}.py passes and the existing test suite still passes unedited:
+        cd /tmp/hunt-{pid} && PYTHONPATH=/tmp/hunt-{pid} /venv/bin/python -m pytest -q -p no:cacheprovider -n 8 tests
+    (the single test tests/test__package.py::test__last_modified_date ALWAYS fails in this sandbox - ignore it; every other test must pass: 327 passed). Produce the diff with `git diff > HUNT/fix{{k}}.diff`, then `git checkout -- .`.
+SANDBOX NOTE: never use `git stash` (it is shared by every worktree of this repository and other people work in parallel). Leave the worktree CLEAN (pristine source; only the untracked HUNT/ directory) when you finish.
+
+Finally reply with a short summary: one paragraph per finding (clause, input, observed vs expected, cause, whether a fix diff is included and verified), then one paragraph on what you examined and found to hold."""
+
+
 if __name__ == "__main__":
+    if len(sys.argv) > 2 and sys.argv[2] == "hunt":
+        print(prompt_hunt(sys.argv[1]))
+        sys.exit(0)
     if len(sys.argv) > 2 and sys.argv[2] == "5":
         print(prompt5(sys.argv[1]))
         sys.exit(0)
